@@ -245,6 +245,44 @@ def h05_job(S):
         S.check("not-forgotten-once-due", now <= T, info="deferred_until passed and the job was not delivered")
 
 
+def h05_redis_same_id(S):
+    """A job id that is still waiting is submitted again with a due time: whatever a normal consumer is handed under that id
+    does not carry a next execution time that is still ahead."""
+    import repid.data._parameters as P
+    from fakes import redis as fr
+    from repid.data._key import RoutingKey
+
+    e = S.int("first_enqueue_at_us", Y2000, Y2050)
+    T = S.int("second_submission_due_us", Y2000, Y2050)
+    now = S.int("consume_at_us", Y2000, Y2050)
+    S.assume(e <= now)
+    S.assume(T > e)
+    clock = PinnedClock(e)
+    out = {}
+
+    async def main(loop):
+        srv = fr.FakeServer(clock=lambda: clock.time())
+        br = fr.mk_broker(srv)
+        key = RoutingKey(topic="job", queue="default", id_="u1")
+        await br.enqueue(key, "first", P.Parameters(timestamp=S.datetime_us(e)))
+        await br.enqueue(key, "second", _params(S, T, ts_us=e))
+        clock.set(now)
+        cons = br.get_consumer("default", ["job"])
+        cons.POLLING_WAIT = 0
+        out["got"] = [await cons.consume_or_none(), await cons.consume_or_none()]
+
+    run_async(main, clock=clock)
+    for i, got in enumerate(out["got"]):
+        if got is None:
+            continue
+        S.cover("delivered")
+        d = got[2].delay
+        due = None if d is None else (d.next_execution_time or d.delay_until)
+        S.check("handed-message-is-not-scheduled-for-later", due is None or now >= us_of(due) - MS,
+                info=f"delivery {i} ({got[1]!r}) carries a next execution time that is still ahead")
+    S.check("first-submission-is-delivered", out["got"][0] is not None)
+
+
 HARNESSES = [
     Harness(
         name="H05-mem", scenario=h05_mem, workers=8,
@@ -309,3 +347,9 @@ HARNESSES.append(
             stubs=["state constructed directly (see H04-step)"]))
 ASSUMPTIONS = ["'at millisecond resolution' is read as a 1 ms tolerance on 'not before T'",
                "Redis/RabbitMQ servers are stubs (fakes/redis.py, fakes/amqp.py)"]
+HARNESSES.append(Harness(
+    name="H05-redis-same-id", scenario=h05_redis_same_id, workers=4,
+    bounds={"history": "enqueue(id, immediate) then enqueue(same id, due at T) before the first was consumed, then two consume calls", "instants": "any µs in 2000..2050"},
+    outside=["the opposite order (due first, immediate second): both submissions share one data hash, the first one's wins - see DESIGN 4.4"],
+    functions=["connections/redis/message_broker.py:RedisMessageBroker.enqueue", "connections/redis/consumer.py:_RedisConsumer.consume_or_none"],
+    covers=["delivered"], stubs=["fake Redis server"]))
